@@ -528,9 +528,10 @@ func genC09Cipher(t *rapid.T) C09Cipher {
 	case 2:
 		e.NoKey = true
 	case 3:
-		e.UseKeyRaw, e.KeyCipherRaw = true, rapid.SampledFrom([]string{"", "AAAA", "!!!", base64.StdEncoding.EncodeToString(make([]byte, 256))}).Draw(t, "keyCipher")
+		e.UseKeyRaw, e.KeyCipherRaw = true, rapid.SampledFrom([]string{"", "AAAA", "!!!", "\n", "\r\n", "=", base64.StdEncoding.EncodeToString(make([]byte, 256)), base64.StdEncoding.EncodeToString(make([]byte, 255)), base64.StdEncoding.EncodeToString(make([]byte, 257))}).Draw(t, "keyCipher")
 	case 4:
-		e.RecipRaw = rapid.SampledFrom([]string{"!!!not-base64", "AAAA", " "}).Draw(t, "recipRaw")
+		// base64.StdEncoding skips CR / LF: text made only of those decodes, without error, to zero bytes
+		e.RecipRaw = rapid.SampledFrom([]string{"!!!not-base64", "AAAA", " ", "\n", "\r\n", "\n\n\n", "\t", "=", "====", "A", "AA==", "\u00a0", "MA==", "MIIB"}).Draw(t, "recipRaw")
 	}
 	if !validKey && !e.UseKeyRaw {
 		// RSA wrapping of a 0-byte key with PKCS#1 v1.5 is fine; OAEP too. keep it.
